@@ -265,3 +265,9 @@ def check(ctx):
     helper_specs.check(ctx, "C02.f", ["fullc"])
     # ---------------- (g) the interpolation / extrapolation kernels select / insert are parameterised with (shared with C20.a)
     ctx.import_clauses("C20", {"C20.a"}, "C02.g", minimum=6)
+    # ---------------- (h) select / insert as decision tables (every branch: scalar / tensor time, exact / off-grid, refusals)
+    from .. import tables
+    tables.check(ctx, "C02.h", [
+        ("RecordTensor", "select", "plain", "", "time-indexed read through the interpolation protocol"),
+        ("RecordTensor", "insert", "plain", "", "time-indexed write through the extrapolation protocol"),
+    ])
